@@ -33,9 +33,11 @@ def prior_key(spec):
     return tape.jdump(spec)
 
 
-def get_prior(spec):
+def get_prior(spec, fresh=False):
+    """Cached per process; fresh=True builds a brand-new JokerPrior object (nothing any earlier call could have left
+    on the prior object is shared with it) and does not touch the cache."""
     key = prior_key(spec)
-    if key in _PRIOR_CACHE:
+    if key in _PRIOR_CACHE and not fresh:
         return _PRIOR_CACHE[key]
     import astropy.units as u
     import pymc as pm
@@ -77,7 +79,8 @@ def get_prior(spec):
             v0_offsets=offs,
             pars=pars or None,
         )
-    _PRIOR_CACHE[key] = prior
+    if not fresh:
+        _PRIOR_CACHE[key] = prior
     return prior
 
 
